@@ -195,11 +195,21 @@ def gen_tensor(rng, kind):
         return (a, b, -(a + b), dyadic(rng), dyadic(rng), dyadic(rng)), True
     if kind == 'dyadic':
         return tuple(dyadic(rng) for _ in range(6)), True
+    if kind == 'near_tie_diag':      # largest and smallest eigenvalue tie in magnitude up to t*2^-k (exactly representable)
+        t = abs(dyadic(rng)) or 1.0
+        d = t * 2.0 ** -rng.randint(8, 44) * rng.choice([1, -1])
+        v = [t, -(t + d), rng.choice([0.0, t / 2, -t / 4])]
+        rng.shuffle(v)
+        return tuple(v) + (0.0, 0.0, 0.0), True
+    if kind == 'near_zero_trace':    # trace = +/- 2^-k exactly, with shear
+        a, b = dyadic(rng), dyadic(rng)
+        d = 2.0 ** -rng.randint(8, 44) * rng.choice([1, -1])
+        return (a, b, -(a + b) + d, dyadic(rng), dyadic(rng), dyadic(rng)), True
     raise ValueError(kind)
 
 
 KINDS = ['general', 'general', 'general', 'decimal', 'decimal', 'near_hydrostatic', 'plane', 'diag', 'uniaxial', 'hydrostatic',
-         'pure_shear_diag', 'pure_shear', 'repeated', 'zero', 'zero_trace', 'dyadic']
+         'pure_shear_diag', 'pure_shear', 'repeated', 'zero', 'zero_trace', 'dyadic', 'near_tie_diag', 'near_zero_trace']
 
 PERM_QUATS = [(1, 0, 0, 0), (1, 1, 0, 0), (1, 0, 1, 0), (1, 0, 0, 1), (0, 1, 0, 0), (0, 0, 1, 0), (0, 0, 0, 1), (1, 1, 1, 1), (1, -1, 1, 1),
               (0, 1, 1, 0), (0, 1, 0, 1), (0, 0, 1, 1), (1, -1, 0, 0), (1, 1, -1, 1), (0, 1, -1, 0)]
@@ -302,7 +312,7 @@ def rel_definitions(cx, t, exact, out=None):
     if not isnan('mises', 'tresca') and not (o['mises'] <= o['tresca'] + slack and o['tresca'] <= 2 / math.sqrt(3) * o['mises'] + 2 * slack):
         cx.bad('Mises <= Tresca <= 2/sqrt(3) Mises is violated', mises=o['mises'], tresca=o['tresca'], **base)
     # signed variants
-    near_tr = (i1 != 0 and abs(float(i1)) <= 1e-12 * norm)
+    near_tr = not exact and (i1 != 0 and abs(float(i1)) <= 1e-12 * norm)
     near_amp = abs(ind_amp) <= 1e-9 * norm and not diag_exact(t, exact)
     for fn, un, ind, near in (('signed_tresca_trace', 'tresca', i1, near_tr), ('signed_mises_trace', 'mises', i1, near_tr),
                               ('signed_tresca_abs_max_principal', 'tresca', ind_amp, near_amp),
@@ -650,8 +660,8 @@ def run(res):
                         'floating-point rounding is outside the theorems; certificates / relations compare at 1e-9..1e-12 relative to the tensor norm, Mises with the '
                         'error bound of its radicand; signs are not compared when the indicator is zero only up to rounding (|indicator| <= 1e-9 norm, non-diagonal tensor)',
                         'stress magnitudes 1e-9..1e10 (squares neither overflow nor underflow); integer inputs up to 4e8 (int32) / 1e12 (int64, Python int)']
-    res.cov['rule'] = ('tensors from 16 kinds (general, decimal, near-hydrostatic, plane, diagonal, uniaxial, hydrostatic, pure shear, repeated eigenvalue, zero, zero trace, '
-                       'dyadic) + corpus; rotations = integer quaternions (exactly orthogonal rational matrices; signed permutations for exact cases), factors 2^k and 10^u; '
+    res.cov['rule'] = ('tensors from 18 kinds (general, decimal, near-hydrostatic, plane, diagonal, uniaxial, hydrostatic, pure shear, repeated eigenvalue, zero, zero trace, '
+                       'dyadic, magnitude tie / trace zero up to 2^-8..2^-44) + corpus; rotations = integer quaternions (exactly orthogonal rational matrices; signed permutations for exact cases), factors 2^k and 10^u; '
                        'frames of 1..333 rows with 5 index kinds; int32/int64/Python-int inputs.  non-trivial = tensor with a non-zero shear component and three eigenvalues '
                        'separated by > 1e-6 norm, counted distinct by component tuple')
     proofs_ok = common.standard_proof_stage(res, 'C17', extra_targets=['theories/Common/Cert.vo', 'theories/Stress/C17Cert.vo'],
